@@ -39,7 +39,7 @@ type Tape struct {
 }
 
 // verifyReady enables the full VerifyAPREQ path.
-const verifyReady = false
+const verifyReady = true
 
 var (
 	clients  = []string{"a", "b", "a/admin"}
@@ -50,7 +50,7 @@ func Meta() core.Meta {
 	return core.Meta{
 		Engine: "c02", Property: "C02", Level: "exploration",
 		Rule:        "case = one seeded run: 1-3 presenter tasks (1-8 presentations each over clients{a,b,a/admin} x client times{t0,+1us,+1s,late,early} x services{s1,s2}) plus the library's clean-up goroutine, interleaved by the seeded fake-time scheduler at every lock boundary of service/cache.go; distinct = distinct (shape, path, skew, interleaving hash of the ordered (task, lock site) sequence, outcome vector); non-trivial = at least two presentations of one identity inside the skew window, or a context switch inside a cache operation",
-		SeededQuick: 6000, SeededThorough: 400000,
+		SeededQuick: 20000, SeededThorough: 600000,
 		WorkloadProbes: []string{"same-identity-overlap", "late-window", "cleaner-between", "cross-service", "sequential-replay"},
 		Components: map[string]string{
 			"service.Cache (IsReplay, AddEntry, getClientEntry, ClearOldEntries) + GetReplayCache clean-up goroutine": "real",
